@@ -62,6 +62,7 @@ func main() {
 	feasMs := flag.Int("feasibility-timeout-ms", 8000, "timeout of the branch-pruning queries (unknown = keep the branch)")
 	tier := flag.String("tier", "quick", "quick|thorough (value of the verifTier intrinsic)")
 	second := flag.String("second-solver", "", "re-check every obligation with this solver (z3-new|cvc5) and diff")
+	fixCase := flag.String("fix-case", "", "name=val,... pins verifCase values (debugging)")
 	cpuprof := flag.String("cpuprofile", "", "write cpu profile")
 	flag.Parse()
 	if *cpuprof != "" {
@@ -132,7 +133,7 @@ func main() {
 	pool := newPool()
 	ro := &RunOutput{Repo: *repo, Tags: *tags, LoadMs: loadMs}
 	for _, name := range names {
-		hr := runHarness(prog, pkgs[0].Fset, mainPkg, name, pool, *unwind, *trace, *tier, *feasMs)
+		hr := runHarness(prog, pkgs[0].Fset, mainPkg, name, pool, *unwind, *trace, *tier, *feasMs, *fixCase)
 		hr.Tags = *tags
 		discharge(pool, hr, *workers, *timeout, *dumpDir, *second)
 		ro.Harnesses = append(ro.Harnesses, hr)
@@ -170,7 +171,7 @@ func newEngine(prog *ssa.Program, fset interface{}, pool *SolverPool) *Engine {
 	return nil
 }
 
-func runHarness(prog *ssa.Program, fset0 interface{}, pkg *ssa.Package, name string, pool *SolverPool, unwind int, trace bool, tier string, feasMs int) *HarnessResult {
+func runHarness(prog *ssa.Program, fset0 interface{}, pkg *ssa.Package, name string, pool *SolverPool, unwind int, trace bool, tier string, feasMs int, fixCase string) *HarnessResult {
 	hr := &HarnessResult{Name: name, Pkg: pkg.Pkg.Path(), Loops: map[string]string{}, Bounds: map[string]string{}}
 	start := time.Now()
 	e := &Engine{
@@ -183,6 +184,14 @@ func runHarness(prog *ssa.Program, fset0 interface{}, pkg *ssa.Package, name str
 		redirects: map[string]*ssa.Function{}, mainPkg: pkg, tier: tier, feasTimeout: feasMs,
 	}
 	e.installStubs()
+	e.fixedCases = map[string]int{}
+	for _, kv := range strings.Split(fixCase, ",") {
+		if p := strings.SplitN(kv, "=", 2); len(p) == 2 {
+			var v int
+			fmt.Sscanf(p[1], "%d", &v)
+			e.fixedCases[p[0]] = v
+		}
+	}
 	fn := pkg.Func(name)
 
 	runOnce := func() (aborted string) {
